@@ -31,6 +31,9 @@ impl Default for Mix {
 }
 
 pub fn run_mix(cfg: &Cfg, mix: &Mix, make: &(dyn Fn() -> Box<dyn Monitor> + Sync)) -> Sink {
+    // game counts in the plans below are per worker; quick plans are multiplied by 6, thorough by 3
+    let k = if cfg.tier == Tier::Quick { 6 } else { 3 };
+    let mix = &Mix { w1: (mix.w1.0 * k, mix.w1.1 * k), w2: (mix.w2.0 * k, mix.w2.1 * k), w3: (mix.w3.0 * k, mix.w3.1 * k), w5: (mix.w5.0 * k, mix.w5.1 * k), w7: (mix.w7.0 * k, mix.w7.1 * k), long_w3: (mix.long_w3.0, mix.long_w3.1), sweep3: (if mix.sweep3.0 > 0 { (mix.sweep3.0 / 4).max(1) } else { 0 }, mix.sweep3.1), ..*mix };
     run_parallel(cfg, |w, sink| {
         let mut mon = make();
         let opts = PlayOpts { max_turns: mix.max_turns, max_actions: mix.max_turns * 4 + 8, tree_per_mille: mix.tree_per_mille, ..PlayOpts::default() };
